@@ -29,7 +29,7 @@ Record dvariants := {
 }.
 Definition current_dvariants :=
   {| dv_astype_num_keeps_w := false; dv_ps_astype_keeps_w := false; dv_ps_getitem_keeps_w := false;
-     dv_byaxis_nonnum_ok := false |}.
+     dv_byaxis_nonnum_ok := true |}.
 Definition repaired_dvariants :=
   {| dv_astype_num_keeps_w := true; dv_ps_astype_keeps_w := true; dv_ps_getitem_keeps_w := true;
      dv_byaxis_nonnum_ok := true |}.
@@ -314,5 +314,70 @@ Definition tsp_byaxis (t : tsp T) (i : aidx) : res (tsp T) :=
     | w => mk_tsp sh (ts_dtype t)
              (if dv_byaxis_nonnum_ok dv && negb (is_numeric (ts_dtype t)) then None else Some w)
     end).
+
+(* ------------------------------------------------------------ DiscretizedSpace.byaxis_in *)
+(* RectPartition.cell_sides of one axis: the grid stride (NaN for a non-uniform grid; the
+   code tests uniformity with allclose, the model exactly), the extent for a one-point axis *)
+Definition axis_side (ends : ext T * ext T) (g : list T) : option T :=
+  match g with
+  | [] => None
+  | [_] => match ends with (Fin lo, Fin hi) => Some (hi - lo)%num | _ => None end
+  | x0 :: ((x1 :: _) as tl) =>
+      let d := (x1 - x0)%num in
+      if (fix uni (prev : T) (l : list T) : bool :=
+            match l with [] => true | y :: l' => neqb (y - prev)%num d && uni y l' end) x0 tl
+      then Some d else None
+  end.
+
+(* RectPartition.cell_volume: 0.0 for an empty partition, else the product of the cell sides *)
+Fixpoint cell_volume (intv : list (ext T * ext T)) (grid : list (list T)) : option T :=
+  match intv, grid with
+  | e :: intv', g :: grid' =>
+      match axis_side e g, cell_volume intv' grid' with
+      | Some s, Some v => Some (s * v)%num
+      | _, _ => None
+      end
+  | _, _ => Some (of_Z 1)
+  end.
+
+(* the axes partition.byaxis[indices] keeps: for an int or a list the given ones in the given
+   order; for a slice the axes of the slice IN INCREASING ORDER (it is applied as a mask) *)
+Definition axis_positions (n : Z) (i : aidx) : res (list Z) :=
+  match i with
+  | AInt k => rmap (fun j => [j]) (norm_index n k)
+  | ASlice s => rmap (fun ps => match sl_step s with
+                                | Some st => if (st <? 0)%Z then rev ps else ps
+                                | None => ps end) (slice_positions n s)
+  | AList is_ => rall (map (norm_index n) is_)
+  end.
+
+Definition select_pos {A} (l : list A) (ps : list Z) : res (list A) :=
+  rall (map (fun p => match nth_error l (Z.to_nat p) with Some a => Ok a | None => ErrIndex end) ps).
+
+Definition obyaxis_in (a : obj T) (i : aidx) : res (obj T) :=
+  match a with
+  | ODiscr p t =>
+      let n := Z.of_nat (length (p_grid p)) in
+      (* a 0-dimensional partition indexed with a slice: partition[()] is not a partition (TypeError) *)
+      if match i with ASlice _ => (n =? 0)%Z | _ => false end then ErrType else
+      rbind (axis_positions n i) (fun ps =>
+      rbind (select_pos (p_intv p) ps) (fun intv' =>
+      rbind (select_pos (p_grid p) ps) (fun grid' =>
+        let p' := {| p_intv := intv'; p_grid := grid' |} in
+        rbind
+          (match ts_w t with
+           | WConst _ _ e =>
+               (* the weighting constant is REPLACED by the cell volume of the sub-partition *)
+               rbind (byaxis_shape (ts_shape t) i) (fun sh =>
+                 match (match intv' with [] => Some nzero | _ => cell_volume intv' grid' end) with
+                 | Some c => if nltb nzero c then mk_tsp sh (ts_dtype t) (Some (WConst KNpy c e)) else ErrValue
+                 | None => ErrValue
+                 end)
+           | _ => tsp_byaxis t i
+           end)
+          (fun t' => if Zs_eqb (map (fun g => Z.of_nat (length g)) grid') (ts_shape t')
+                     then Ok (ODiscr p' t') else ErrValue))))
+  | _ => ErrType
+  end.
 
 End D.
